@@ -72,6 +72,16 @@ Definition run_coring (e : Z) (a : list Z) : option (list Z) :=
               ++ eres enested (if lag <=? 0 then Err ValueError else if lag =? 1 then Ok ts
                                else coring_ref ts (Z.to_nat lag) iter))
     | None => None end
+  else if e =? 503 then
+    (* same answer layout as 501, both halves computed by the structurally recursive reference rule
+       (linear in the length); for very long trajectories, where the code-shaped kernel model with its
+       indexed list updates is quadratic. wrapper_spec / single_eq_ref (C05) prove the two equal *)
+    match dpair dnested (dpair dZ dbool) a with
+    | Some ((ts, (lag, iter)), _) =>
+        let r := if lag <=? 0 then Err ValueError else if lag =? 1 then Ok ts
+                 else coring_ref ts (Z.to_nat lag) iter in
+        Some (eres enested r ++ eres enested r)
+    | None => None end
   else if e =? 502 then   (* all maximal runs >= m ? *)
     match dpair dnested dnat a with
     | Some ((ts, m), _) => Some (ebool (forallb (runs_geb m) ts))
